@@ -1,6 +1,7 @@
 package scen
 
 import (
+	"os"
 	"fmt"
 	"reflect"
 	"unsafe"
@@ -69,6 +70,9 @@ outer:
 			}
 		}
 		x.Fail("L", "goroutine left behind: %s", g)
+	}
+	if os.Getenv("VERIF_DEBUG") != "" && len(x.Violations()) > 0 {
+		x.Fail("DEBUG", "goroutines=%q blocked=%q", x.Goroutines(""), x.EndBlocked)
 	}
 }
 
